@@ -86,7 +86,7 @@ def replay(scratch, drive, target, edges, names="a,b", nshard=None, timeout=900)
                               "-shard", str(k), "-nshard", str(nshard), "-names", names],
                              stdout=subprocess.PIPE, stderr=subprocess.PIPE, text=True, env=env)
         procs.append((p, out))
-    stats = {"Edges": 0, "OK": 0, "Mismatch": 0, "Unreach": 0, "Skipped": 0, "Built": 0}
+    stats = {"Edges": 0, "OK": 0, "Mismatch": 0, "Unreach": 0, "Skipped": 0, "Built": 0, "Explained": 0, "Corrupt": 0, "Kf": {}}
     bad = []
     deadline = time.time() + timeout
     for p, out in procs:
@@ -100,10 +100,17 @@ def replay(scratch, drive, target, edges, names="a,b", nshard=None, timeout=900)
             raise Infra("driver failed on target %s: %s" % (target, se[-3000:]))
         st = json.loads(so.strip().splitlines()[-1])["stats"]
         for k2 in stats:
-            stats[k2] += st[k2]
+            if k2 == "Kf":
+                for kk, vv in (st.get("Kf") or {}).items():
+                    stats["Kf"][kk] = stats["Kf"].get(kk, 0) + vv
+            else:
+                stats[k2] += st.get(k2, 0)
         with open(out) as f:
             for line in f:
                 bad.append(json.loads(line))
+    stats["Corrupt"] //= max(1, nshard)      # every shard reads (and counts) the whole file
+    if stats["Corrupt"] * 200 > max(1, stats["Edges"]):
+        raise Infra("%d of the lines TLC emitted are damaged (concurrent appends of long lines)" % stats["Corrupt"])
     return stats, bad
 
 
